@@ -430,6 +430,72 @@ def validate_trace(lines, transport, wd, tag, us=False):
     raise ToolError("trace validation did not run cleanly:\n" + "\n".join(l[:300] for l in out.splitlines()[-30:] if not l.startswith('"EXPECT')))
 
 
+SELFTEST_KINDS = {"C05": ["drop_to_response", "missing_out"], "C06": ["until_plus_one", "wait_to_timeout"],
+                  "C07": ["drop_to_response", "rcred"], "C15": ["spurious_val", "missing_val"],
+                  "C18": ["pay_altered", "to_altered"], "C20": ["until_plus_one", "now_shifted"]}
+
+
+def corrupt_line(kind, lines):
+    """first line of an ACCEPTED trace to which corruption `kind` applies -> (index, corrupted copy) or None"""
+    for i, ln in enumerate(lines):
+        ret = ln.get("ret") or {}
+        c = json.loads(json.dumps(ln))
+        if kind == "until_plus_one" and ln["ev"] == "poll" and ret.get("k") == "wait" and ln["out"]:
+            c["ret"]["until"] += 1
+        elif kind == "wait_to_timeout" and ln["ev"] == "poll" and ret.get("k") == "wait" and ln["out"]:
+            c["ret"] = {"k": "timeout", "tid": ln["out"][0][0]}
+        elif kind == "now_shifted" and ln["ev"] == "poll" and ret.get("k") == "transmit" and ln["now"] >= 0:
+            c["now"] += 1          # the retransmission is logged one millisecond later: every later wake-up of it is off by one
+        elif kind == "drop_to_response" and ln["ev"] == "recv_resp" and ret.get("k") == "drop":
+            c["ret"] = {"k": "response"}
+        elif kind == "missing_out" and ln["ev"] == "send_req" and ret.get("k") == "transmit":
+            c["out"] = [x for x in ln["out"] if x[0] != ln["tid"]]
+        elif kind == "rcred" and ln["ev"] == "recv_resp" and ln["rcred"] != "k3":
+            c["rcred"] = "k3"
+        elif kind == "spurious_val" and ln["ev"] in ("send_req", "poll") and len(ln["val"]) < 6 and "out" in ln:
+            c["val"] = ln["val"] + [a for a in ("a1", "a2", "a3", "a4", "a5", "a6") if a not in ln["val"]][:1]
+        elif kind == "missing_val" and ln["ev"] == "recv_other" and ln["from"] in ln["val"]:
+            c["val"] = [a for a in ln["val"] if a != ln["from"]]
+        elif kind == "pay_altered" and ln["ev"] == "poll" and ret.get("k") == "transmit":
+            c["ret"]["pay"] = [x for x in ("p1", "p2", "p3") if x != ret["pay"]][0]
+        elif kind == "to_altered" and ln["ev"] == "poll" and ret.get("k") == "transmit":
+            c["ret"]["to"] = [x for x in ("a1", "a2", "a3") if x != ret["to"]][0]
+        else:
+            continue
+        return i, c
+    return None
+
+
+def binding_selftest(pid, flat, transport, wd, us_mode):
+    """The binding demonstrated on this very run: a trace TLC has just accepted is corrupted in ONE field of ONE line (two
+    corruptions that concern this property) and must now be rejected - at that line for a corrupted observation, at the
+    latest a few polls later for a shifted instant.  A corruption that is still accepted means the trace specification
+    does not constrain that field: a tool error (exit 2), never a verdict about the code."""
+    done = []
+    for kind in SELFTEST_KINDS.get(pid, []):
+        hit = corrupt_line(kind, flat)
+        if hit is None:
+            done.append({"kind": kind, "applied": False})
+            continue
+        i, c = hit
+        # (the history that contains the line, to its end: a shifted instant shows at a later poll)
+        j = i + 1
+        while j < len(flat) and flat[j]["ev"] != "reset":
+            j += 1
+        k = i
+        while k > 0 and flat[k]["ev"] != "reset":
+            k -= 1
+        mutated = flat[k:i] + [c] + flat[i + 1:j]
+        rej, _ = validate_trace(mutated, transport, wd, "selftest_%s" % kind, us=us_mode)
+        at = None if rej is None else rej - (i - k) - 1          # 0 = at the corrupted line
+        ok = rej is not None and (at == 0 or (kind == "now_shifted" and at >= 0))
+        done.append({"kind": kind, "applied": True, "line": json.dumps(flat[i])[:160], "rejected_lines_after_the_corrupted_one": at, "ok": ok})
+        if not ok:
+            raise ToolError("binding self-test: the trace specification accepted (or rejected elsewhere: %s) a trace with corruption %s of %s" % (
+                at, kind, json.dumps(flat[i])[:300]))
+    return done
+
+
 def b2(pid, tier, seed, wd, rep):
     nh = 120 if tier == "quick" else 2500
     nsteps = 90
@@ -503,6 +569,8 @@ def b2(pid, tier, seed, wd, rep):
                 stats["tlc_runs"] += 1
                 if rej is None:
                     stats["trace_lines"] += len(flat)
+                    if "binding_selftest" not in stats and not us_mode and transport == "udp":
+                        stats["binding_selftest"] = binding_selftest(pid, flat, transport, wd, us_mode)
                     break
                 rej = min(rej, len(flat))
                 hi = owner[rej - 1]
